@@ -8,7 +8,7 @@ address / a header value that `ParseAddr` accepts, its `String()`, and `Prefix.C
 for each configured range); it instantiates the model's `Net` parameter.
 `fails` (0-2) upstream round trips fail and are retried; `hops` = reverse_proxy request header ops
 (0 none, 1 set an unrelated field, 2 delete X-Forwarded-Host).
-Answers: `ip=<hex> tp=<0|1> ph=<hex> lg=<hex> cm=<0|1> rm=<0|1> pp=<hex>/0|invalid xff=<H> xfp=<H> xfh=<H>[ | xff=… xfp=… xfh=…]*` (one triple per attempt) | `ip=<hex> tp=<0|1> err` | `bad-op`.
+Answers: `ip=<hex> tp=<0|1> ph=<hex> tm=<hex> lg=<hex> cm=<0|1> rm=<0|1> pp=<hex>/0|invalid xff=<H> xfp=<H> xfh=<H>[ | xff=… xfp=… xfh=…]*` (one triple per attempt) | `ip=<hex> tp=<0|1> err` | `bad-op`.
 -/
 import CaddyModel.C10.Model
 
@@ -103,7 +103,7 @@ def showFwd (f : Fwd) : String :=
 
 def showOut (o : Out) (k : Consumers) (ck : String) (attempts : Option (List Fwd)) : String :=
   "ip=" ++ Hex.encode o.clientIP ++ " tp=" ++ (if o.trusted then "1" else "0") ++
-  " ph=" ++ Hex.encode k.placeholder ++ " lg=" ++ Hex.encode k.logField ++
+  " ph=" ++ Hex.encode k.placeholder ++ " tm=" ++ Hex.encode k.template ++ " lg=" ++ Hex.encode k.logField ++
   " cm=" ++ (if k.clientMatch then "1" else "0") ++ " rm=" ++ (if k.remoteMatch then "1" else "0") ++
   " pp=" ++ (match k.proxyProto with | some a => Hex.encode a ++ "/0" | none => "invalid") ++ " ck=" ++ ck ++
   (match attempts with
